@@ -271,7 +271,7 @@ func TestC14(t *testing.T) {
 
 	rapidCheck(t, "C14/random", tier(20000, 2000000), func(rt *rapid.T) {
 		maxT := rapid.SampledFrom([]int64{30 * nsMs, 5000 * nsMs, 3600 * 1000 * nsMs}).Draw(rt, "range")
-		cues := makeWellFormed(genCues(rt, 0, 8, maxT, []string{"a", "b", "c", "..."}))
+		cues := makeWellFormed(genCues(rt, 0, 8, maxT, []string{"a", "b", "c", "...", "~", ""}))
 		if n := len(cues); n > 0 && rapid.IntRange(0, 5).Draw(rt, "fillerlike") == 0 {
 			// a genuine cue that looks like a filler: one millisecond of "..."
 			cues[n-1].T, cues[n-1].E = "...", cues[n-1].S+nsMs
